@@ -20,10 +20,11 @@ def render(toks, rot, arches):
 
 
 def evaluate(case):
-    from . import enums as C
+    import productmd.common as C
+    from . import enums
     from productmd.rpms import Rpms
     rot = case.get("rot", 0)
-    arches = [a for a in C.RPM_ARCHES]
+    arches = [a for a in enums.RPM_ARCHES]
     p = case["parts"]
     s = render(case["s"], rot, arches)
     # render parts with the same positions as inside s: recompute offsets
